@@ -13,7 +13,8 @@ PARTIAL = ["proved: the tree-level round trip (roundtrip_tree, RoundTrip1-6) and
            "wire_roundtrip_unclosed: to_etree -> serializer text -> tokenizer + tree builder -> from_etree returns the same instance, plain and pretty-printed); the hypothesis "
            "conv (escape (unconv v)) = Some v on element values is discharged for Bool/String/NagString/OneOf/Integer/Decimal by held_value_reads_back (C10 engine) and for "
            "DateTime/Time by held_datetime_reads_back (C09 engine; millisecond-precision instants, years 1000..9998, any writer conforming to writes_instants / writes_times - "
-           "utc_writer_conforms shows the UTC writer is one); file_roundtrip_v2 / file_roundtrip_v1 / client_bytes_roundtrip_v2 / _v1 compose these with the header engine's "
+           "utc_writer_conforms shows the UTC writer is one); typed_valid_is_valid packages both (structure + holdable values => valid for the concrete converters, no converter hypothesis), "
+           "typed_file_roundtrip_v2 is the complete byte-level statement in those terms, typed_valid_b_sound ties the decidable domain check evaluated on real instances (TValidM); file_roundtrip_v2 / file_roundtrip_v1 / client_bytes_roundtrip_v2 / _v1 compose these with the header engine's "
            "parse_header_exact theorems into one statement over the BYTES of a file (any tolerated header layout ++ encoded body -> parse_header -> tokenizer -> tree builder -> from_etree "
            "gives the header and the same instance); lone surrogates in the text are excluded there (scalar_text); "
            "the complete file round trip is also exercised on the implementation for every class x 6 wire forms x header versions",
@@ -184,7 +185,7 @@ def _is_utc(v):
         return False
 
 
-def typed_cases(ctx, obj, tree, back, wtags):
+def typed_cases(ctx, obj, tree, back, wtags, in_domain=None):
     """TTo: the typed model writes the real instance; TFrom: the typed model reads the tree the library wrote (date-times through tables
     filled by the real converters).  TFromM / TToM: the same with the date-time converters of the C09 engine (no table on the reading
     side; on the writing side a table only for values whose tzinfo is not UTC)"""
@@ -206,6 +207,8 @@ def typed_cases(ctx, obj, tree, back, wtags):
         exp = H.enc_result(back, lambda i: "(%s,[%s])" % (enc_pinst(ctx, i), ";".join(H.cs(t) for t in wtags)))
         out.append("TFrom %s %s (%s)" % (ttb, etree_enc, exp))
         out.append("TFromM %s (%s)" % (etree_enc, exp))
+        if in_domain is not None:      # the domain of the round-trip theorems, decided with the engines' converters alone
+            out.append("TValidM %s %s" % (enc, C.cbool(in_domain)))
     except ValueError:
         pass
     return out
@@ -241,7 +244,7 @@ def run(rep, tier, rng):
             items.append("RCase %s %s %s %s %s" % (H.enc_conv_table(ctx, tb), H.enc_unconv_table(ctx, utb), enc, C.cbool(not excluded), C.cbool(tree_ok)))
             meta.append({"class": cls.__name__, "expected_in_domain": not excluded, "implementation_tree_roundtrip": tree_ok})
             if cls.__name__.lower() not in ("rmxz",):
-                for tc in typed_cases(ctx, obj, tree, back, wtags):
+                for tc in typed_cases(ctx, obj, tree, back, wtags, in_domain=not excluded):
                     yitems.append(tc); ymeta.append({"class": cls.__name__, "what": "typed " + tc[:5]})
             c1, o1 = H.case_to(ctx, obj); titems.append(c1); tmeta.append({"class": cls.__name__, "what": "to_etree"})
             c2, o2, _ = H.case_from(ctx, tree); titems.append(c2); tmeta.append({"class": cls.__name__, "what": "from_etree"})
